@@ -64,6 +64,10 @@ func C10(e *Env) {
 	calls := moduleCalls(e.P)
 	r.Analysed["module_call_instructions"] = len(calls)
 	c09FlagChain(e)
+	c16Flags(e)
+	r.Rule("R16.1", "flag binding (shared with C16): --quiet exists and is the variable RunE switches the writer on", 2)
+	r.Rule("R16.2", "payload = negated flag (shared with C16)", 2)
+	r.Rule("R16.3", "the ignore switches are applied on every path (shared with C16)", 2)
 	errorFlattenRule(e, "R11.10")
 	r.Rule("R11.10", "the printed list and count contain every violation: no module code formats an error value into the text of another, the only wrapper is grouperror.Prefix (shared with C11)", 1)
 	r.Rule("R09.4", "the -i flag is a string array that reaches the payload's inputPatterns unchanged (shared with C09): a slice flag splits a path on commas, so the command reads other files than the ones it was given and fails or succeeds for the wrong input", 1)
@@ -1114,6 +1118,7 @@ func c10RunE(e *Env) {
 		return
 	}
 	r.Check(quietWriter(fn, outv), "R10.7", key+"#quiet-writer", "the writer is io.Discard on every path on which the quiet flag is set")
+	r.Check(loudWriter(fn, outv), "R10.7", key+"#loud-writer", "without --quiet the writer is the command's output stream (cmd.OutOrStdout / OutOrStderr or os.Stdout / os.Stderr): the numbered error list is printed")
 	// payload.writer is the same value
 	okPayload := false
 	for _, blk := range fn.Blocks {
@@ -1266,6 +1271,33 @@ func quietWriter(fn *ssa.Function, v ssa.Value) bool {
 		}
 	}
 	return true
+}
+
+// loudWriter: v has an edge that is the command's output stream and that edge is taken when quiet is false.
+func loudWriter(fn *ssa.Function, v ssa.Value) bool {
+	isStream := func(x ssa.Value) bool {
+		x = unwrap(x)
+		if c, ok := x.(*ssa.Call); ok {
+			n := callName(&c.Call)
+			return strings.HasSuffix(n, "cobra.(Command).OutOrStdout") || strings.HasSuffix(n, "cobra.(Command).OutOrStderr") || strings.HasSuffix(n, "cobra.(Command).ErrOrStderr")
+		}
+		if u, ok := x.(*ssa.UnOp); ok && u.Op == token.MUL {
+			if g, ok := u.X.(*ssa.Global); ok && g.Pkg.Pkg.Path() == "os" && (g.Name() == "Stdout" || g.Name() == "Stderr") {
+				return true
+			}
+		}
+		return false
+	}
+	phi, ok := v.(*ssa.Phi)
+	if !ok {
+		return false
+	}
+	for i, ed := range phi.Edges {
+		if isStream(ed) && onlyWhenFlagFalse(fn, phi.Block().Preds[i], "quiet") {
+			return true
+		}
+	}
+	return false
 }
 
 // onlyWhenFlagFalse: block b is dominated by the false edge of a branch on the captured variable.
